@@ -874,6 +874,12 @@ func (c *Compiler) compileVariable(expr *ast.VariableExpr) error {
 
 // compileBinaryOp compiles binary operation
 func (c *Compiler) compileBinaryOp(expr *ast.BinaryOpExpr) error {
+	// && and || evaluate their right operand only when the left one does not
+	// decide the result, as in the interpreter
+	if expr.Op == ast.And || expr.Op == ast.Or {
+		return c.compileShortCircuit(expr)
+	}
+
 	// Compile left operand
 	if err := c.compileExpression(expr.Left); err != nil {
 		return err
@@ -908,14 +914,46 @@ func (c *Compiler) compileBinaryOp(expr *ast.BinaryOpExpr) error {
 		c.emit(vm.OpGt)
 	case ast.Ge:
 		c.emit(vm.OpGe)
-	case ast.And:
-		c.emit(vm.OpAnd)
-	case ast.Or:
-		c.emit(vm.OpOr)
 	default:
 		return fmt.Errorf("unsupported binary operator: %v", expr.Op)
 	}
 
+	return nil
+}
+
+// compileShortCircuit compiles `l && r` / `l || r` with a conditional jump over
+// the right operand. The conditional jump checks that the left operand is a
+// boolean; the final OpAnd/OpOr with a neutral constant checks the right one.
+func (c *Compiler) compileShortCircuit(expr *ast.BinaryOpExpr) error {
+	if err := c.compileExpression(expr.Left); err != nil {
+		return err
+	}
+
+	isAnd := expr.Op == ast.And
+	jumpOp, combineOp := vm.OpJumpIfTrue, vm.OpOr
+	if isAnd {
+		jumpOp, combineOp = vm.OpJumpIfFalse, vm.OpAnd
+	}
+
+	// The left operand decides: skip the right one
+	jumpToDecided := len(c.code)
+	c.emitWithOperand(jumpOp, 0) // Placeholder
+
+	if err := c.compileExpression(expr.Right); err != nil {
+		return err
+	}
+	// r && true == r, r || false == r, and a non-boolean r is a type error
+	c.emitWithOperand(vm.OpPush, uint32(c.addConstant(vm.BoolValue{Val: isAnd})))
+	c.emit(combineOp)
+
+	jumpToEnd := len(c.code)
+	c.emitWithOperand(vm.OpJump, 0) // Placeholder
+
+	// false && _ == false, true || _ == true
+	c.patchJump(jumpToDecided, uint32(len(c.code)))
+	c.emitWithOperand(vm.OpPush, uint32(c.addConstant(vm.BoolValue{Val: !isAnd})))
+
+	c.patchJump(jumpToEnd, uint32(len(c.code)))
 	return nil
 }
 
